@@ -68,6 +68,11 @@ FrameBad   == EdgesWhere(LAMBDA nd, e : e[3] = 0 /\ e[7] # 0)
 \* an edge is charged with a restart inequality only if its source state was restart-equal (r0)
 RestartBad == EdgesWhere(LAMBDA nd, e : nd.r0 = 1 /\ e[8] = 0)
 Tainted    == {i \in DOMAIN Nodes : Nodes[i].r0 = 0}
+\* handler-level graphs carry two more observations per edge: e[9] = number of mutations the
+\* transactional store reported for the request, e[10] = a signer restored from the pre-commit
+\* local store plus those mutations (crash between prepare and commit) equals the running one
+MutsBad    == EdgesWhere(LAMBDA nd, e : Len(e) >= 9 /\ e[3] = 0 /\ e[9] # 0)
+CrashBad   == EdgesWhere(LAMBDA nd, e : Len(e) >= 10 /\ e[10] = 0)
 NEdges     == FoldLeft(LAMBDA acc, nd : acc + Len(nd.e), 0, Nodes)
 
 Describe(p) == LET nd == Nodes[p[1]] e == nd.e[p[2]] IN
@@ -82,6 +87,8 @@ Report ==
     divergences |-> SetToSeq({Describe(p) : p \in Divergent}),
     frame_bad   |-> SetToSeq({Describe(p) : p \in FrameBad}),
     restart_bad |-> SetToSeq({Describe(p) : p \in RestartBad}),
+    muts_bad    |-> SetToSeq({Describe(p) : p \in MutsBad}),
+    crash_bad   |-> SetToSeq({Describe(p) : p \in CrashBad}),
     tainted_states |-> Cardinality(Tainted) ]
 
 ASSUME JsonSerialize(IOEnv.CH_REPORT, Report)
